@@ -558,12 +558,13 @@ class DocutilsRenderer(RendererProtocol):
 
     def render_hr(self, token: SyntaxTreeNode) -> None:
         # footnotes are moved to the end of the document (when footnote_sort is set),
+        # and comments are removed (when the docutils strip_comments setting is set),
         # before the transition is checked, so they do not count as preceding elements
-        ignored = (
-            (nodes.title, nodes.subtitle, nodes.footnote)
-            if self.md_config.footnote_sort
-            else (nodes.title, nodes.subtitle)
-        )
+        ignored: tuple[type[nodes.Node], ...] = (nodes.title, nodes.subtitle)
+        if self.md_config.footnote_sort:
+            ignored += (nodes.footnote,)
+        if getattr(self.document.settings, "strip_comments", None):
+            ignored += (nodes.comment,)
         if not isinstance(
             self.current_node, nodes.document | nodes.section
         ) and not any(
